@@ -221,8 +221,15 @@ Definition of_ufield (u : ufield) : ofield :=
             foreign (uf_optional u)
   end.
 (* buildProperty: "cannot be both required and optional" (a primary key is required) *)
+Definition sfield_ok (s : sfield) : bool := negb (sf_optional s && sf_required s).
 Definition ufield_ok (u : ufield) : bool :=
-  negb (uf_optional u && (uf_required u || match uf_kind u with KKey p _ _ => p | _ => false end)).
+  negb (uf_optional u && (uf_required u || match uf_kind u with KKey p _ _ => p | _ => false end))
+  (* the fields of an inline object / the options of an inline oneof go through buildProperty too *)
+  && match uf_kind u with
+     | KInlineObject fs => forallb sfield_ok fs
+     | KInlineOneof fs => forallb sfield_ok fs
+     | _ => true
+     end.
 Definition plain_field (name : string) (t : otype) (required : bool) : ofield :=
   mkF (bs name) t false required false false None None.
 Definition array_field (name : bytes) (t : otype) (required : bool) : ofield :=
